@@ -6,6 +6,8 @@ PID = "C16"
 MODEL_VOS = ["model/TrafficPattern.vo"]
 ASSUMPTIONS = [
     "on-the-wire half: driver e2e (-prop C16) runs real client and server Muxes over simnet with explicit patterns on each side and checks on every decoded segment: paddings <= configured maxima (0 = none), nonce prefix class/length/fixed prefix (every UDP packet when applyToAllUDPPacket), low-entropy types only when configured with the configured mode and rotation, server low entropy only after the client used it (oracle only)",
+    "UDP server under adversarial histories: driver c16wire runs a real server Mux with an explicit nonce pattern and plays the client with refcodec on many sockets (NAT rebinding to a new port / IP and back, data / ack / close for unknown session ids, data after close, duplicate open requests from one and two addresses, two users interleaved and swapping sockets, open+data bursts); EVERY datagram the server emits is judged against the pattern (all of them when applyToAllUDPPacket=true, the first per client address when explicitly false); oracle only - the model side is C16_udp_pattern_independent_of_block_origin",
+    "an explicit seed (0, +-1, int32 extremes included) decides the implicit values alone: every explicit-seed input of a sample of the subset grid is evaluated in a fresh process under ANOTHER host name (unshare -u; hostname) and must give the same effective pattern; an explicit seed must not give the values of an unset seed (skipped with a note if the sandbox forbids unshare)",
     "rng.FixedInt(n, hint) is an oracle with only 0 <= v < n assumed in the theorems; the driver obtains the values from the real function with the same (n, \"<seed>:<field>\") arguments, checks range and stability on every draw and hands them to the model runner",
     "contract of rng.FixedInt tested by the driver (docs: same seed and unlockAll => implicit patterns do not change; rng.go: same hint => same value, the cache only accelerates): a pure function of (n, hint) = 31 bits of sha256(hint) mod n, independent of earlier calls; checked on every oracle-table draw (same hint asked with 16 different n, ascending or descending), by evaluating inputs that share hints (unlockAll true/false, explicit/implicit minLen or maxLen) alone and in both orders in fresh child processes and in-process, and by re-evaluating a sample of cases in a fresh process each",
     "math/rand draws (nonce rewrite length, choice among several fixed prefixes) are not observable: the runner accepts a set of observed lengths iff every one is explained by some draw in range",
@@ -19,7 +21,8 @@ ASSUMPTIONS = [
 
 def run(ctx):
     return [run_pair(ctx, "c16", PID, MODEL_VOS),
-            run_pair(ctx, "e2e", PID, None, faketime=True, extra_args=["-prop", "C16"], subdir="e2e")]
+            run_pair(ctx, "e2e", PID, None, faketime=True, extra_args=["-prop", "C16"], subdir="e2e"),
+            run_pair(ctx, "c16wire", PID, None, faketime=True, subdir="c16wire")]
 
 
 def search(ctx):
